@@ -203,6 +203,16 @@ Theorem C05_verify_reader_upto_eof :
 Proof. exact verify_reader_upto_eof. Qed.
 Print Assumptions C05_verify_reader_upto_eof.
 
+(* ... and a successful Push (memory store, OCI layout, named file) stores exactly those bytes *)
+Theorem C05_push_stores_upto_eof :
+  forall (H : str -> str -> str) comb fuel evs d,
+    (forall fixed m m', mem_push H comb fixed fuel m d (mkBase evs None) = (None, m') -> m' = (d, upto_eof evs) :: m) /\
+    (forall s s', oci_push H comb true fuel s d (mkBase evs None) = (None, s') -> s' = (d_dg d, upto_eof evs) :: s) /\
+    (forall s name path s', name <> [] -> file_push H comb true fuel s name path d evs = (None, s') ->
+       assoc_get (f_files s') path = Some (upto_eof evs)).
+Proof. exact push_stores_upto_eof. Qed.
+Print Assumptions C05_push_stores_upto_eof.
+
 Theorem C05_trailing_before_eof_rejected :
   forall (H : str -> str -> str) comb fuel evs d,
     (d_sz d < Z.of_nat (length (upto_eof evs)))%Z ->
